@@ -114,6 +114,16 @@ Definition guard {A} (sh : shape) (scope : site) (pass : bool) (o : outcome A) :
   | o' => o'
   end.
 
+(* Unmarshaler.Unmarshal after Decode returned an error: `receiver.OnError()` (builder
+   ArtificiallyTerminate) and `builder.GetBuiltObject()` run before the error is returned.
+   [onerr] = that epilogue returns; it belongs to the builder (not modelled here) and is
+   known to spin forever in some builder states. *)
+Definition after_decode {A} (onerr : bool) (o : outcome A) : outcome A :=
+  match o with
+  | Err => if onerr then Err else Hang
+  | o' => o'
+  end.
+
 (* Result of a piece of code that signals errors by panicking. *)
 Inductive pres (A : Type) := POk (a : A) | PPanic | PHang.
 Arguments POk {A} a.
@@ -396,8 +406,8 @@ Section Source.
 
     (* cbe.Unmarshaler.Unmarshal: Decode inside a second recover() scope; a
        returned error stays the returned error. *)
-    Definition cbe_unmarshal (pass : bool) (fuel : nat) (st : rst) (d : D) : rst * outcome unit :=
-      let '(st', o) := cbe_decode pass fuel st d in (st', guard sh GCbeUnmarshal pass o).
+    Definition cbe_unmarshal (onerr pass : bool) (fuel : nat) (st : rst) (d : D) : rst * outcome unit :=
+      let '(st', o) := cbe_decode pass fuel st d in (st', guard sh GCbeUnmarshal pass (after_decode onerr o)).
   End Decoder.
 
   (* io.Copy(strings.Builder, reader) when the reader has no WriteTo: Read into a
@@ -432,8 +442,8 @@ Section Source.
 
   Definition cte_decode (pass : bool) (fuel : nat) (st : rst) : rst * outcome unit :=
     cte_after_copy pass (io_copy fuel st []).
-  Definition cte_unmarshal (pass : bool) (fuel : nat) (st : rst) : rst * outcome unit :=
-    let '(st', o) := cte_decode pass fuel st in (st', guard sh GCteUnmarshal pass o).
+  Definition cte_unmarshal (onerr pass : bool) (fuel : nat) (st : rst) : rst * outcome unit :=
+    let '(st', o) := cte_decode pass fuel st in (st', guard sh GCteUnmarshal pass (after_decode onerr o)).
 End Source.
 Arguments rs_src {S}.
 Arguments rs_tr {S}.
@@ -545,7 +555,7 @@ Section Universal.
 
   (* [unm] = UnmarshalCE (unmarshalers), otherwise UniversalDecoder.Decode (decoders).
      Returns the caller's reader (with the trace of the calls made on it) and the outcome. *)
-  Definition universal (unm pass : bool) (fuel : nat) (u : rst S) (d : D) : rst S * outcome unit :=
+  Definition universal (unm onerr pass : bool) (fuel : nat) (u : rst S) (d : D) : rst S * outcome unit :=
     let '(b1, first) := b_peek1 S step {| b_buf := []; b_err := ENone; b_under := u |} in
     let peek_site := if unm then RCePeekUnmarshal else RCePeekDecode in
     match first with
@@ -555,13 +565,13 @@ Section Universal.
       | UNone => (b_under b1, Err)
       | UCbe =>
         let st := {| rs_src := b1; rs_tr := [] |} in
-        let '(st', o) := (if unm then cbe_unmarshal else cbe_decode)
-                           (bst S) (b_read S step) sh D dnext dfeed dfinal pass fuel st d in
+        let '(st', o) := (if unm then cbe_unmarshal (bst S) (b_read S step) sh D dnext dfeed dfinal onerr
+                          else cbe_decode (bst S) (b_read S step) sh D dnext dfeed dfinal) pass fuel st d in
         (b_under (rs_src st'), o)
       | UCte =>
         let '(b2, r) := b_writeto S step fuel b1 in
         let '(st', o) := cte_after_copy (bst S) sh parse pass ({| rs_src := b2; rs_tr := [] |}, r) in
-        (b_under (rs_src st'), if unm then guard sh GCteUnmarshal pass o else o)
+        (b_under (rs_src st'), if unm then guard sh GCteUnmarshal pass (after_decode onerr o) else o)
       end
     end.
 End Universal.
@@ -665,11 +675,11 @@ Definition rmodel (e : rentry) (pass : bool) (data : bytes) (script : list prim)
   let '(st, o) :=
     match e with
     | RECbeDecode => cbe_decode rsrc stp current_shape (list prim) script_next script_feed fin pass fuel st0 script
-    | RECbeUnmarshal => cbe_unmarshal rsrc stp current_shape (list prim) script_next script_feed fin pass fuel st0 script
+    | RECbeUnmarshal => cbe_unmarshal rsrc stp current_shape (list prim) script_next script_feed fin true pass fuel st0 script
     | RECteDecode => cte_decode rsrc stp current_shape prs pass fuel st0
-    | RECteUnmarshal => cte_unmarshal rsrc stp current_shape prs pass fuel st0
-    | REUniDecode => universal rsrc stp current_shape (list prim) script_next script_feed fin prs false pass fuel st0 script
-    | REUniUnmarshal => universal rsrc stp current_shape (list prim) script_next script_feed fin prs true pass fuel st0 script
+    | RECteUnmarshal => cte_unmarshal rsrc stp current_shape prs true pass fuel st0
+    | REUniDecode => universal rsrc stp current_shape (list prim) script_next script_feed fin prs false true pass fuel st0 script
+    | REUniUnmarshal => universal rsrc stp current_shape (list prim) script_next script_feed fin prs true true pass fuel st0 script
     end in
   (List.rev (rs_tr st), out_of o).
 
